@@ -18,7 +18,7 @@ checks); the flusher publishes record.sector before dropping the in-memory value
 resolve_record_value answer `None` (re-resolve) and resolve_value retries a bounded number of times from a fresh index
 read; only the reviewed functions call read_sectors_sync. Not decided: which value a racing read returns.
 """
-DECIDED = ['blocks handed back to the allocator do not stay reserved by the entry that held them (shared with C09.contain/release_allocations, scrub-release)', 'retirement marks and frees exactly the blocks the generation was allocated (shared with C05.len)', "pin -> load sector -> pread under the pin -> identity check before use", "reader count protocol (retired bit, CAS, Drop)",
+DECIDED = ['cache entries are selected only by key equality AND pointer identity of the generation (shared with C16.match)', 'blocks handed back to the allocator do not stay reserved by the entry that held them (shared with C09.contain/release_allocations, scrub-release)', 'retirement marks and frees exactly the blocks the generation was allocated (shared with C05.len)', "pin -> load sector -> pread under the pin -> identity check before use", "reader count protocol (retired bit, CAS, Drop)",
            "retirement waits for readers", "publish sector before clearing the value", "stale reads re-resolve, bounded",
            "a range scan re-resolves a stale handle by the entry's own key and from the entry's own slot",
            'acquire_extent tests the retired bit on the value each compare-exchange attempt is based on; no refusal after an installed change of the reader count']
@@ -293,7 +293,17 @@ def check_reservations(ctx):
     C09.check_scrub(ctx, "C08.reservation")
 
 
+def check_cache_identity(ctx):
+    """a TTL change builds the next generation from the bytes the read cache holds for the *current* generation: the cache's
+    selection predicates (get / record_entry / remove) must select an entry only for the pointer-identical generation and the
+    equal key, or a reader that cached a superseded generation's bytes late feeds them into the next generation and every later
+    read returns a value older than the last completed update (same rule as C16.match; added after C08-i)"""
+    from rules import C16
+    C16.check_match(ctx, "C08.cache-identity")
+
+
 def check(ctx):
+    check_cache_identity(ctx)
     check_reservations(ctx)
     check_extent_len(ctx)
     check_range_resolve(ctx)
